@@ -14,6 +14,7 @@ import (
 	"github.com/smart-core-os/sc-api/go/types"
 	"google.golang.org/protobuf/proto"
 
+	"github.com/smart-core-os/sc-golang/pkg/cmp"
 	"github.com/smart-core-os/sc-golang/pkg/resource"
 	"github.com/smart-core-os/sc-golang/verifharness/cmd/c02/k4"
 	"github.com/smart-core-os/sc-golang/verifharness/lib"
@@ -80,7 +81,10 @@ type MaskScenario struct {
 	Ops  []MOp          `json:"ops"`
 	Subs []MSub         `json:"subs"`
 	// Eq: the resource's equivalence ("" = none): "e" WithNoDuplicates, "l" / "t" WithEquivalence comparing only
-	// level / only target (an absent message is equivalent to an absent one only). Clock: see scriptClock.
+	// level / only target (an absent message is equivalent to an absent one only); "a" a TOLERANCE:
+	// WithMessageEquivalence(cmp.Equal(cmp.FloatValueApprox(0, tol))) - every field within tol of the other message's,
+	// reflexive and symmetric but NOT transitive (the default equivalence of the electric, fan speed and energy storage
+	// models). Clock: see scriptClock.
 	Eq    string `json:"eq,omitempty"`
 	Clock string `json:"clock,omitempty"`
 	// Icpt: the collection has an id interceptor (icptFunc in main.go); operations spell their ids as MOp.Sp says
@@ -94,8 +98,24 @@ func eqPair(name string, a, b pair) bool {
 		return a.L == b.L
 	case "t":
 		return a.T == b.T
+	case "a":
+		return absInt(a.L-b.L) <= tol && absInt(a.T-b.T) <= tol
 	}
 	return a == b
+}
+
+// tol: the margin of the tolerance equivalence "a" (the driver's comparer `a` / `A` uses the same number)
+const tol = 2
+
+// tolMarker: the marker written last to a Value with the tolerance equivalence: farther than tol from every value of a
+// scenario, whatever the subscriber holds
+const tolMarker = -1000
+
+func absInt(x int) int {
+	if x < 0 {
+		return -x
+	}
+	return x
 }
 
 // relViews: the same ids, and equivalent values (equal ones without an equivalence)
@@ -129,6 +149,8 @@ func resourceOptions(eq, clock string) []resource.Option {
 			}
 			return px.T == py.T
 		})))
+	case "a":
+		opts = append(opts, resource.WithMessageEquivalence(cmp.Equal(cmp.FloatValueApprox(0, tol))))
 	}
 	if clock != "" {
 		opts = append(opts, resource.WithClock(&scriptClock{kind: clock}))
@@ -231,6 +253,10 @@ func runMasks(sc MaskScenario) (*verdict, *maskResult) {
 		coll = resource.NewCollection(opts...)
 	}
 	cons := make([]*mconsumer, len(sc.Subs))
+	marker := -1
+	if sc.Eq == "a" {
+		marker = tolMarker
+	}
 	subscribe := func(i int) {
 		s := sc.Subs[i]
 		c := &mconsumer{view: map[string]pair{}, marker: make(chan struct{}, 1)}
@@ -247,7 +273,7 @@ func runMasks(sc MaskScenario) (*verdict, *maskResult) {
 			go func() {
 				for e := range ch {
 					p, ok := pairOf(e.Value)
-					if ok && (p.L == -1 || p.T == -1) { // the marker written last for backpressured Value subscribers
+					if ok && (p.L == marker || p.T == marker) { // the marker written last for backpressured Value subscribers
 						select {
 						case c.marker <- struct{}{}:
 						default:
@@ -336,7 +362,7 @@ func runMasks(sc MaskScenario) (*verdict, *maskResult) {
 		valueMarker = valueMarker && s.BP
 	}
 	if valueMarker {
-		val.Set(bright(-1, -1))
+		val.Set(bright(marker, marker))
 	}
 	site := "masks-single-writer"
 	for _, s := range sc.Subs {
@@ -346,6 +372,9 @@ func runMasks(sc MaskScenario) (*verdict, *maskResult) {
 	}
 	if sc.Eq != "" {
 		site = "equivalence-" + site
+	}
+	if sc.Eq == "a" {
+		site = "tolerance-" + site
 	}
 	for i, c := range cons {
 		want := map[string]pair{}
@@ -647,6 +676,144 @@ func eqWitnesses() []MaskScenario {
 	return out
 }
 
+// tolWitnesses: resources with a TOLERANCE equivalence (cmp.FloatValueApprox, not transitive). On a Value (compared
+// with the value SENT last): ramps whose every step is within the tolerance of its predecessor but which accumulate
+// far beyond it, up and down, ending on the ramp (no larger step afterwards) or followed by one; SIGN changes between
+// values of the same or nearly the same magnitude, of both fields, of one, as the last write and in the middle;
+// oscillation inside the tolerance; x every read mask x {all backpressured (marker, exact), with lossy subscribers
+// (polled, within tolerance)} next to an unmasked and a late subscriber. On a Collection (each change compared with the
+// value it replaced: a drift below the tolerance is C16's recorded finding, not driven) every step of an item is either
+// none or beyond the tolerance in BOTH fields, sign changes of equal magnitude included, with deletes and re-creations
+// of a body within tolerance of the deleted one; backpressured subscribers.
+func tolWitnesses() []MaskScenario {
+	var out []MaskScenario
+	ramp := func(l, t, dl, dt, n int) []MOp {
+		var ops []MOp
+		for i := 1; i <= n; i++ {
+			ops = append(ops, MOp{K: "s", L: l + i*dl, T: t + i*dt})
+		}
+		return ops
+	}
+	vhist := [][]MOp{
+		ramp(3, 4, 1, 1, 6),  // 3,4 -> 9,10 in steps of 1
+		ramp(3, 4, 2, -2, 5), // steps of exactly the tolerance, the fields in opposite directions (crossing zero)
+		ramp(3, 4, -1, 0, 8), // one field only, through zero to -5
+		append(ramp(3, 4, 1, 1, 5), MOp{K: "s", L: 30, T: 40}),
+		append(ramp(3, 4, 1, 2, 4), ramp(7, 12, -1, -2, 4)...),                                       // up and back: ends where it began
+		{{K: "s", L: 5, T: 6}, {K: "s", L: -5, T: -6}},                                               // sign change as the last write
+		{{K: "s", L: 5, T: 6}, {K: "s", L: -5, T: 6}, {K: "s", L: -5, T: -6}, {K: "s", L: 5, T: -7}}, // one field at a time, nearly the same magnitude
+		{{K: "s", L: -8, T: -9}, {K: "s", L: 8, T: 9}, {K: "s", L: 9, T: 10}, {K: "s", L: -9, T: -10}, {K: "s", L: -8, T: -9}, {K: "s", L: 7, T: 10}},
+		{{K: "s", L: 4, T: 5}, {K: "s", L: 5, T: 4}, {K: "s", L: 3, T: 6}, {K: "s", L: 4, T: 5}, {K: "s", L: 2, T: 3}, {K: "s", L: 1, T: -1}, {K: "s", L: -1, T: 1}},
+	}
+	for _, ops := range vhist {
+		for _, lossy := range []bool{false, true} {
+			for _, mask := range maskChoices {
+				subs := []MSub{{Mask: mask, BP: true}, {Mask: nil, BP: !lossy}, {Mask: mask, BP: !lossy, Late: len(ops) / 2}}
+				out = append(out, MaskScenario{Res: "value", Init: map[string]int{"0": 3}, Ops: ops, Subs: subs, Eq: "a"})
+			}
+		}
+		out = append(out, MaskScenario{Res: "value", Init: map[string]int{}, Ops: ops, Eq: "a",
+			Subs: []MSub{{BP: true}, {Mask: maskChoices[1], BP: true, Late: 1}}})
+	}
+	cops := []MOp{{K: "s", ID: 0, L: 5, T: 6}, {K: "s", ID: 0, L: -5, T: -6}, {K: "s", ID: 0, L: -5, T: -6}, {K: "s", ID: 1, L: 9, T: -9},
+		{K: "s", ID: 0, L: 5, T: 6}, {K: "d", ID: 0}, {K: "s", ID: 0, L: 6, T: 5}, {K: "s", ID: 1, L: -9, T: 9}, {K: "s", ID: 2, L: -4, T: -5},
+		{K: "d", ID: 1}, {K: "s", ID: 1, L: -8, T: 8}, {K: "s", ID: 0, L: -6, T: -5}, {K: "s", ID: 2, L: 4, T: 5}, {K: "s", ID: 1, L: 8, T: -8}}
+	for _, mask := range maskChoices {
+		out = append(out, MaskScenario{Res: "coll", Init: map[string]int{"2": 4}, Ops: cops, Eq: "a",
+			Subs: []MSub{{Mask: mask, BP: true}, {Mask: nil, BP: true}, {Mask: mask, BP: true, Late: 6}}})
+	}
+	return out
+}
+
+// genTol: a random scenario on a resource with the tolerance equivalence. Value: a walk of small steps (within the
+// tolerance), jumps and negations; Collection: every step none or beyond the tolerance in both fields (see tolWitnesses)
+func genTol(rng *rand.Rand) MaskScenario {
+	sc := MaskScenario{Res: "value", Init: map[string]int{}, Eq: "a"}
+	if rng.Intn(3) == 0 {
+		sc.Res = "coll"
+	}
+	n := 3 + rng.Intn(8)
+	cur := map[int]*pair{}
+	ids := 1
+	if sc.Res == "coll" {
+		ids = 2
+	}
+	for id := 0; id < ids; id++ {
+		if rng.Intn(2) == 0 {
+			l := 2 + rng.Intn(6)
+			sc.Init[strconv.Itoa(id)] = l
+			cur[id] = &pair{l, l + 1}
+		}
+	}
+	far := func(x int) int { // a value beyond the tolerance of x, never the marker's
+		d := tol + 1 + rng.Intn(6)
+		if rng.Intn(2) == 0 {
+			d = -d
+		}
+		return x + d
+	}
+	for i := 0; i < n; i++ {
+		id := rng.Intn(ids)
+		c := cur[id]
+		var p pair
+		switch {
+		case c == nil:
+			p = pair{rng.Intn(19) - 9, rng.Intn(19) - 9}
+		case sc.Res == "coll" && rng.Intn(6) == 0:
+			sc.Ops = append(sc.Ops, MOp{K: "d", ID: id})
+			cur[id] = nil
+			continue
+		case sc.Res == "coll":
+			switch rng.Intn(4) {
+			case 0:
+				p = *c
+			case 1:
+				if absInt(c.L) > tol/2 && absInt(c.T) > tol/2 {
+					p = pair{-c.L, -c.T}
+				} else {
+					p = pair{far(c.L), far(c.T)}
+				}
+			default:
+				p = pair{far(c.L), far(c.T)}
+			}
+		default:
+			switch rng.Intn(6) {
+			case 0:
+				p = pair{-c.L, -c.T}
+			case 1:
+				p = pair{-c.L, c.T}
+			case 2:
+				p = pair{far(c.L), far(c.T)}
+			default: // a small step, most often in one direction: ramps
+				d := 1 + rng.Intn(tol)
+				if rng.Intn(4) == 0 {
+					d = -d
+				}
+				p = pair{c.L + d, c.T + rng.Intn(2*tol+1) - tol}
+			}
+		}
+		sc.Ops = append(sc.Ops, MOp{K: "s", ID: id, L: p.L, T: p.T})
+		q := p
+		cur[id] = &q
+	}
+	lossy := sc.Res == "value" && rng.Intn(2) == 0
+	ns := 2 + rng.Intn(2)
+	for i := 0; i < ns; i++ {
+		s := MSub{Mask: maskChoices[rng.Intn(len(maskChoices))], BP: !lossy || rng.Intn(2) == 0}
+		if rng.Intn(3) == 0 {
+			s.Late = rng.Intn(n + 1)
+		}
+		sc.Subs = append(sc.Subs, s)
+	}
+	if rng.Intn(3) == 0 {
+		sc.Clock = clockKinds[rng.Intn(len(clockKinds))]
+		for i := range sc.Ops {
+			sc.Ops[i].WT = genWT(rng)
+		}
+	}
+	return sc
+}
+
 func genMasks(rng *rand.Rand) MaskScenario {
 	sc := MaskScenario{Res: "coll", Init: map[string]int{}}
 	if rng.Intn(3) == 0 {
@@ -718,14 +885,18 @@ func genMasks(rng *rand.Rand) MaskScenario {
 
 func masksMonitor(f lib.Flags, res *lib.Result, rng *rand.Rand) {
 	mon := res.Monitor("converges-read-masks",
-		"single writer, 2-3 concurrent subscribers of one Value / Collection of two-field messages with DIFFERENT read masks (none, each field, both), backpressure on/off, subscribing before or between writes; each subscriber's folded view at quiescence vs the projection of Get/List under its OWN mask (projection computed independently); all ordered pairs of distinct masks x {Value, Collection} x {backpressure, lossy} + random; on Collections also WithInclude with a function of a closed family reading the STORED item (level even, target even, level >= 5, id even and target < 5) combined with every mask (in particular masks hiding the field the function reads): scripted sequences moving items into / inside / out of the included set by ADD, UPDATE and REMOVE for every (mask, function) pair + random; the view must be the masked image of the items the function accepts AND equal what List returns with the same mask and function; resources created with an equivalence (WithNoDuplicates; WithEquivalence comparing only level / only target, an absent message equivalent to an absent one only) x every mask x {backpressure, lossy} x {Value, Collection}, with and without include functions: equal rewrites, changes of one field, delete and re-creation with the SAME body (also of a seeded item), items leaving the included set and returning with the same masked body, bodies from a three-letter alphabet at random: the view must hold the same items as Get/List and equivalent bodies (equal ones WithNoDuplicates); write times equal / decreasing / zero and scripted clocks on half of the random scenarios; deterministic, so any difference is a violation")
+		"single writer, 2-3 concurrent subscribers of one Value / Collection of two-field messages with DIFFERENT read masks (none, each field, both), backpressure on/off, subscribing before or between writes; each subscriber's folded view at quiescence vs the projection of Get/List under its OWN mask (projection computed independently); all ordered pairs of distinct masks x {Value, Collection} x {backpressure, lossy} + random; on Collections also WithInclude with a function of a closed family reading the STORED item (level even, target even, level >= 5, id even and target < 5) combined with every mask (in particular masks hiding the field the function reads): scripted sequences moving items into / inside / out of the included set by ADD, UPDATE and REMOVE for every (mask, function) pair + random; the view must be the masked image of the items the function accepts AND equal what List returns with the same mask and function; resources created with an equivalence (WithNoDuplicates; WithEquivalence comparing only level / only target, an absent message equivalent to an absent one only) x every mask x {backpressure, lossy} x {Value, Collection}, with and without include functions: equal rewrites, changes of one field, delete and re-creation with the SAME body (also of a seeded item), items leaving the included set and returning with the same masked body, bodies from a three-letter alphabet at random: the view must hold the same items as Get/List and equivalent bodies (equal ones WithNoDuplicates); resources with a TOLERANCE equivalence (WithMessageEquivalence(cmp.Equal(cmp.FloatValueApprox(0, 2))): reflexive, symmetric, not transitive) - on a Value ramps whose every step is within the tolerance of its predecessor (one field, both, opposite directions, through zero, up and back, ending on the ramp or followed by a jump), sign changes between equal and nearly equal magnitudes (last write / in the middle / one field at a time), oscillation, x every mask x {all backpressured: marker far beyond everything; with lossy subscribers: polled} + random walks of small steps, negations and jumps: the value held must be within the tolerance of Get, field by field; on a Collection (each change compared with the value it replaced: a drift below the tolerance is C16's finding and not driven) steps that are none or beyond the tolerance in both fields, sign changes included, deletes and re-creations, backpressured, scripted + random: same items and bodies within tolerance; write times equal / decreasing / zero and scripted clocks on half of the random scenarios; deterministic, so any difference is a violation")
 	all := append(maskWitnesses(), includeMaskWitnesses()...)
 	all = append(all, eqWitnesses()...)
+	all = append(all, tolWitnesses()...)
 	for i := 0; i < f.N(200, 3000); i++ {
 		all = append(all, genMasks(rng))
 	}
+	for i := 0; i < f.N(100, 1500); i++ {
+		all = append(all, genTol(rng))
+	}
 	tie := res.Tie("masks-model", "K1",
-		"the read-mask scenarios as schedules of the model (single writer; every delivery immediately received; subscriber i carries its mask as a projection and its include function; the model's view is the fold of what its forwarder emits: include on the stored values, then the mask): store and every subscriber's view at quiescence vs run(model), the model applying the resource's equivalence as Collection.Pull (own old vs new value) / Value.Pull (value sent last vs new value) do; under an equivalence coarser than equality the views of lossy and of Value subscribers are compared by equivalence class; non-trivial = subscribers with different masks")
+		"the read-mask scenarios as schedules of the model (single writer; every delivery immediately received; subscriber i carries its mask as a projection and its include function; the model's view is the fold of what its forwarder emits: include on the stored values, then the mask): store and every subscriber's view at quiescence vs run(model), the model applying the resource's equivalence as Collection.Pull (own old vs new value) / Value.Pull (value sent last vs new value) do; under an equivalence coarser than equality the views of lossy and of Value subscribers are compared by equivalence class; under the tolerance (comparer a / A of the driver: fields within 2, a zero - unpopulated - field equivalent to a zero field only, as cmp.Equal compares which fields are populated first) backpressured subscribers ended by a marker are compared exactly and polled / lossy ones not at all (the monitor judges them); non-trivial = subscribers with different masks")
 	var lines, codes []string
 	var inputs []any
 	var nontriv []bool
@@ -776,6 +947,26 @@ func masksMonitor(f lib.Flags, res *lib.Result, rng *rand.Rand) {
 // equivalence (which of two equivalent bodies it holds depends on what its merge stage happened to combine): the views
 // of lossy subscribers are compared by equivalence class (the compared field only); everything else exactly.
 func classViews(ans string, sc MaskScenario) string {
+	if sc.Eq == "a" {
+		// a tolerance has no classes. A Collection subscriber with backpressure and the subscribers of a Value that ends
+		// with the marker (all backpressured) have received every change: compared exactly. Otherwise (a lossy subscriber:
+		// what it holds depends on what its stage merged; a polled one counts as drained once within tolerance) the
+		// view is the monitor's business (within tolerance of Get), not the tie's.
+		exact := true
+		for _, sb := range sc.Subs {
+			exact = exact && sb.BP
+		}
+		if exact {
+			return ans
+		}
+		parts := strings.Split(ans, "|")
+		for k, p := range parts {
+			if eq := strings.IndexByte(p, '='); strings.HasPrefix(p, "S") && eq > 0 {
+				parts[k] = p[:eq+1] + "~"
+			}
+		}
+		return strings.Join(parts, "|")
+	}
 	if sc.Eq != "l" && sc.Eq != "t" {
 		return ans
 	}
